@@ -111,6 +111,14 @@ GroupSizeCalculator::calculator_state GroupSizeCalculator::CalculateGroupSize(
           remaining_tokens)
     return EXTRA_TOKENS;
 
+  if (variable_group_token_count == 0) {
+    // a group without any tokens per block, the only valid input is no tokens
+    if (remaining_tokens)
+      return EXTRA_TOKENS;
+    *group_repeat_count = 0;
+    return SINGLE_VARIABLE_GROUP;
+  }
+
   if (remaining_tokens % variable_group_token_count)
     return MISMATCHED_TOKENS;
 
